@@ -1,0 +1,177 @@
+//go:build verif
+
+// Contracts for package basic, checked by /verif/govc (see /verif/DESIGN.md).
+// This file contains comments only and is compiled only with the build tag "verif".
+
+package basic
+
+// Little-endian images of fixed-width integers in a byte array d at position p.
+//@ spec le16(d [int]int, p int) int := d[p] + 256 * d[p+1]
+//@ spec le32(d [int]int, p int) int := d[p] + 256 * d[p+1] + 65536 * d[p+2] + 16777216 * d[p+3]
+//@ spec le64(d [int]int, p int) int := d[p] + 256 * d[p+1] + 65536 * d[p+2] + 16777216 * d[p+3] + 4294967296 * d[p+4] + 1099511627776 * d[p+5] + 281474976710656 * d[p+6] + 72057594037927936 * d[p+7]
+//@ spec isle16(d [int]int, p int, v int) bool := d[p] == v % 256 && d[p+1] == (v / 256) % 256
+//@ spec isle32(d [int]int, p int, v int) bool := d[p] == v % 256 && d[p+1] == (v / 256) % 256 && d[p+2] == (v / 65536) % 256 && d[p+3] == (v / 16777216) % 256
+//@ spec isle64(d [int]int, p int, v int) bool := d[p] == v % 256 && d[p+1] == (v / 256) % 256 && d[p+2] == (v / 65536) % 256 && d[p+3] == (v / 16777216) % 256 && d[p+4] == (v / 4294967296) % 256 && d[p+5] == (v / 1099511627776) % 256 && d[p+6] == (v / 281474976710656) % 256 && d[p+7] == (v / 72057594037927936) % 256
+//@ spec u8(x int) int := x < 0 ? x + 256 : x
+//@ spec u16(x int) int := x < 0 ? x + 65536 : x
+//@ spec u32(x int) int := x < 0 ? x + 4294967296 : x
+//@ spec u64(x int) int := x < 0 ? x + 18446744073709551616 : x
+
+//@ func ReadN(r io.Reader, buf []byte, length int) (err error)
+//@   tags C01 C02 C03 C07 C08
+//@   requires r != nil
+//@   requires 0 <= length && length == len(buf)
+//@   requires 0 <= r.pos && r.pos <= r.len
+//@   modifies r.pos, r.reads, r.short, buf[*]
+//@   ensures r.pos >= old(r.pos) && r.pos <= old(r.pos) + length && r.pos <= r.len
+//@   ensures err == nil ==> r.pos == old(r.pos) + length
+//@   ensures err == nil ==> forall j int {buf[j]} :: 0 <= j && j < length ==> buf[j] == r.data[old(r.pos) + j]
+//@   ensures forall j int {buf[j]} :: j < 0 || j >= length ==> buf[j] == old(buf[j])
+//@   ensures[C08] old(r.len) - old(r.pos) < length ==> err != nil
+//@   ensures[C01,C02,C03] r.faultfree && old(r.len) - old(r.pos) >= length ==> err == nil
+//@   ensures[C08] r.short == (old(r.short) || err != nil)
+//@   ensures[C01] err == io.EOF ==> r.pos == old(r.pos) && length > 0
+//@   ghost_at_return r.short := old(r.short) || err != nil
+//@   loop 1:
+//@     invariant 0 <= size && size <= length && r.pos == old(r.pos) + size && r.pos <= r.len
+//@     invariant forall j int {buf[j]} :: 0 <= j && j < size ==> buf[j] == r.data[old(r.pos) + j]
+//@     invariant forall j int {buf[j]} :: j < 0 || j >= length ==> buf[j] == old(buf[j])
+//@     invariant r.short == old(r.short)
+//@     decreases length - size
+
+//@ func WriteN(w io.Writer, buf []byte, length int) (err error)
+//@   tags C01 C02 C03 C10
+//@   requires w != nil
+//@   requires 0 <= length && length == len(buf)
+//@   modifies w.len, w.writes, w.data
+//@   ensures w.len >= old(w.len) && w.len <= old(w.len) + length
+//@   ensures forall j int {w.data[j]} :: j < old(w.len) ==> w.data[j] == old(w.data[j])
+//@   ensures forall j int {w.data[j]} :: old(w.len) <= j && j < w.len ==> w.data[j] == buf[j - old(w.len)]
+//@   ensures err == nil ==> w.len == old(w.len) + length
+//@   ensures w.accepting ==> err == nil
+//@   ensures[C10] w.accepting && length > 0 ==> w.writes == old(w.writes) + 1
+//@   ensures[C10] length == 0 ==> w.writes == old(w.writes)
+//@   ensures w.writes >= old(w.writes)
+//@   loop 1:
+//@     invariant 0 <= size && size <= length && w.len == old(w.len) + size
+//@     invariant forall j int {w.data[j]} :: j < old(w.len) ==> w.data[j] == old(w.data[j])
+//@     invariant forall j int {w.data[j]} :: old(w.len) <= j && j < w.len ==> w.data[j] == buf[j - old(w.len)]
+//@     invariant w.writes >= old(w.writes) && (size == 0 ==> w.writes == old(w.writes))
+//@     invariant w.accepting ==> (size == 0 && w.writes == old(w.writes)) || (size == length && w.writes == old(w.writes) + 1)
+//@     decreases length - size
+
+//@ func ReadUint8(r io.Reader) (result uint8, err error)
+//@   tags C01 C02 C03 C07 C08
+//@   decoder r fixed 1
+//@   ensures err == nil ==> result == r.data[old(r.pos)]
+//@ func WriteUint8(i uint8, w io.Writer) (err error)
+//@   tags C01 C02 C03
+//@   encoder w fixed 1
+//@   ensures err == nil ==> w.data[old(w.len)] == i
+//@ func ReadInt8(r io.Reader) (result int8, err error)
+//@   tags C02 C03 C07 C08
+//@   decoder r fixed 1
+//@   ensures err == nil ==> u8(result) == r.data[old(r.pos)]
+//@ func WriteInt8(i int8, w io.Writer) (err error)
+//@   tags C02 C03
+//@   encoder w fixed 1
+//@   ensures err == nil ==> w.data[old(w.len)] == u8(i)
+
+//@ func ReadUint16(r io.Reader) (result uint16, err error)
+//@   tags C01 C02 C03 C07 C08
+//@   decoder r fixed 2
+//@   ensures err == nil ==> result == le16(r.data, old(r.pos))
+//@ func WriteUint16(i uint16, w io.Writer) (err error)
+//@   tags C01 C02 C03
+//@   encoder w fixed 2
+//@   ensures err == nil ==> isle16(w.data, old(w.len), i)
+//@ func ReadInt16(r io.Reader) (result int16, err error)
+//@   tags C02 C03 C07 C08
+//@   decoder r fixed 2
+//@   ensures err == nil ==> u16(result) == le16(r.data, old(r.pos))
+//@ func WriteInt16(i int16, w io.Writer) (err error)
+//@   tags C02 C03
+//@   encoder w fixed 2
+//@   ensures err == nil ==> isle16(w.data, old(w.len), u16(i))
+
+//@ func ReadUint32(r io.Reader) (result uint32, err error)
+//@   tags C01 C02 C03 C07 C08
+//@   decoder r fixed 4
+//@   ensures err == nil ==> result == le32(r.data, old(r.pos))
+//@ func WriteUint32(i uint32, w io.Writer) (err error)
+//@   tags C01 C02 C03
+//@   encoder w fixed 4
+//@   ensures err == nil ==> isle32(w.data, old(w.len), i)
+//@ func ReadInt32(r io.Reader) (result int32, err error)
+//@   tags C02 C03 C07 C08
+//@   decoder r fixed 4
+//@   ensures err == nil ==> u32(result) == le32(r.data, old(r.pos))
+//@ func WriteInt32(i int32, w io.Writer) (err error)
+//@   tags C02 C03
+//@   encoder w fixed 4
+//@   ensures err == nil ==> isle32(w.data, old(w.len), u32(i))
+
+//@ func ReadUint64(r io.Reader) (result uint64, err error)
+//@   tags C02 C03 C07 C08
+//@   decoder r fixed 8
+//@   ensures err == nil ==> result == le64(r.data, old(r.pos))
+//@ func WriteUint64(i uint64, w io.Writer) (err error)
+//@   tags C02 C03
+//@   encoder w fixed 8
+//@   ensures err == nil ==> isle64(w.data, old(w.len), i)
+//@ func ReadInt64(r io.Reader) (result int64, err error)
+//@   tags C02 C03 C07 C08
+//@   decoder r fixed 8
+//@   ensures err == nil ==> u64(result) == le64(r.data, old(r.pos))
+//@ func WriteInt64(i int64, w io.Writer) (err error)
+//@   tags C02 C03
+//@   encoder w fixed 8
+//@   ensures err == nil ==> isle64(w.data, old(w.len), u64(i))
+
+//@ func ReadFloat32(r io.Reader) (result float32, err error)
+//@   tags C02 C03 C07 C08
+//@   decoder r fixed 4
+//@   ensures err == nil ==> result == f32frombits(le32(r.data, old(r.pos)))
+//@ func WriteFloat32(f float32, w io.Writer) (err error)
+//@   tags C02 C03
+//@   encoder w fixed 4
+//@   ensures err == nil ==> isle32(w.data, old(w.len), f32bits(f))
+//@ func ReadFloat64(r io.Reader) (result float64, err error)
+//@   tags C02 C03 C07 C08
+//@   decoder r fixed 8
+//@   ensures err == nil ==> result == f64frombits(le64(r.data, old(r.pos)))
+//@ func WriteFloat64(f float64, w io.Writer) (err error)
+//@   tags C02 C03
+//@   encoder w fixed 8
+//@   ensures err == nil ==> isle64(w.data, old(w.len), f64bits(f))
+
+//@ func ReadBool(r io.Reader) (result bool, err error)
+//@   tags C02 C03 C07 C08
+//@   decoder r fixed 1
+//@   ensures err == nil ==> (result <==> r.data[old(r.pos)] != 0)
+//@ func WriteBool(b bool, w io.Writer) (err error)
+//@   tags C02 C03
+//@   encoder w fixed 1
+//@   ensures err == nil ==> w.data[old(w.len)] == (b ? 1 : 0)
+
+// holdsStr: the stream holds the documented encoding of string t at position p.
+//@ spec holdsStr(d [int]int, p int, t string) bool := le32(d, p) == len(t) && forall j int {d[j]} :: p + 4 <= j && j < p + 4 + len(t) ==> d[j] == t[j - p - 4]
+
+//@ func ReadString(r io.Reader) (result string, err error)
+//@   tags C02 C03 C07 C08
+//@   opt alloclimit 10485760
+//@   decoder r
+//@   ensures err == nil ==> r.pos == old(r.pos) + 4 + len(result) && len(result) <= 10485760
+//@   ensures err == nil ==> holdsStr(r.data, old(r.pos), result)
+//@   ensures[C08] old(r.len) - old(r.pos) < 4 ==> err != nil
+//@   ensures[C08] old(r.len) - old(r.pos) >= 4 && le32(r.data, old(r.pos)) <= 10485760 && old(r.len) - old(r.pos) < 4 + le32(r.data, old(r.pos)) ==> err != nil
+//@   ensures[C02,C03] r.faultfree && old(r.len) - old(r.pos) >= 4 && le32(r.data, old(r.pos)) <= 10485760 && old(r.len) - old(r.pos) >= 4 + le32(r.data, old(r.pos)) ==> err == nil
+//@   ensures[C07] old(r.len) - old(r.pos) >= 4 && le32(r.data, old(r.pos)) > 10485760 ==> err != nil
+//@   ensures[C07] r.pos <= old(r.pos) + 4 + 10485760
+
+//@ func WriteString(s string, w io.Writer) (err error)
+//@   tags C02 C03
+//@   encoder w
+//@   ensures err == nil ==> w.len == old(w.len) + 4 + len(s) && holdsStr(w.data, old(w.len), s)
+//@   ensures w.accepting && len(s) <= 10485760 ==> err == nil
+//@   ensures len(s) > 10485760 ==> err != nil && w.len == old(w.len)
